@@ -38,6 +38,97 @@ fn inproc(idx: u64, what: String) {
     INPROC.lock().unwrap().push(format!("INPROC-VIOLATION idx={} {}", idx, what));
 }
 
+
+/// The same fields presented by a self-describing binary medium as a map keyed by field name (any key order):
+/// the decoded number must be the one the sequence medium (postcard) and `from_parts` give, in canonical form,
+/// or an error; incomplete / duplicated fields must be refused.
+fn map_medium_checks(idx: u64, r: &mut Rng, ia: &IBig, ib: &IBig, ub: &UBig) {
+    use dvh::mapmed::{from_v, V};
+    let raw_i = |x: &IBig| postcard::from_bytes::<Vec<u8>>(&postcard::to_allocvec(x).unwrap()).unwrap();
+    let raw_u = |x: &UBig| postcard::from_bytes::<Vec<u8>>(&postcard::to_allocvec(x).unwrap()).unwrap();
+    let k = r.usize(4);
+    let e0 = r.range(-30, 30) as isize;
+    let prec = if r.chance(1, 5) { 0 } else { 400 + r.usize(100) };
+    let rot = r.usize(3);
+    // floats: significand * B^k (not normalised as written) in bases 2 and 10
+    macro_rules! fl {
+        ($t:ty, $base:expr, $src:expr) => {{
+            let sig = $src * IBig::from($base as u8).pow(k);
+            let want = <$t>::from_parts(sig.clone(), e0);
+            let mut fields = vec![("significand", V::Bytes(raw_i(&sig))), ("exponent", V::I64(e0 as i64)), ("precision", V::U64(prec as u64))];
+            fields.rotate_left(rot);
+            match from_v::<$t>(V::Map(fields.clone())) {
+                Ok(v) => {
+                    if v.repr().significand() != want.repr().significand() || v.repr().exponent() != want.repr().exponent() {
+                        inproc(idx, format!("map-presenting medium decoded FBig base {} fields ({}, {}) into {:?}, from_parts gives {:?}", $base, sig, e0, v.repr(), want.repr()));
+                    } else if v.precision() != prec {
+                        inproc(idx, format!("map-presenting medium decoded precision {} as {}", prec, v.precision()));
+                    }
+                    // the sequence medium on the same fields
+                    let seq = postcard::to_allocvec(&(sig.clone(), e0, prec)).unwrap();
+                    match postcard::from_bytes::<$t>(&seq) {
+                        Ok(p) if p.repr().significand() == v.repr().significand() && p.repr().exponent() == v.repr().exponent() && p.precision() == v.precision() => {}
+                        other => inproc(idx, format!("map medium and sequence medium decode the fields ({}, {}, {}) differently: {:?} vs {:?}", sig, e0, prec, v.repr(), other.map(|p| p.repr().clone()))),
+                    }
+                }
+                Err(e) => inproc(idx, format!("map-presenting medium refused a valid FBig base {} ({}, {}, {}): {}", $base, sig, e0, prec, e)),
+            }
+            // the bare representation (two fields)
+            let mut f2 = vec![("significand", V::Bytes(raw_i(&sig))), ("exponent", V::I64(e0 as i64))];
+            f2.rotate_left(rot % 2);
+            match from_v::<Repr<{ $base }>>(V::Map(f2)) {
+                Ok(v) if v.significand() == want.repr().significand() && v.exponent() == want.repr().exponent() => {}
+                other => inproc(idx, format!("map-presenting medium decoded Repr base {} fields ({}, {}) into {:?}, want {:?}", $base, sig, e0, other, want.repr())),
+            }
+            // a missing and a duplicated field are malformed
+            let mut miss = fields.clone();
+            miss.remove(rot);
+            if let Ok(v) = from_v::<$t>(V::Map(miss)) {
+                inproc(idx, format!("map-presenting medium accepted an FBig with a missing field: {:?}", v.repr()));
+            }
+            let mut dup = fields.clone();
+            dup.push(fields[rot].clone());
+            if let Ok(v) = from_v::<$t>(V::Map(dup)) {
+                inproc(idx, format!("map-presenting medium accepted an FBig with a duplicated field: {:?}", v.repr()));
+            }
+        }};
+    }
+    fl!(F2, 2, ib);
+    fl!(F10, 10, ia);
+    // rationals: parts with a common factor c, zero denominators
+    let c = *r.pick(&[1u8, 2, 3, 6, 10]);
+    let (num, den) = (ia * IBig::from(c), ub * UBig::from(c));
+    let mut fields = vec![("numerator", V::Bytes(raw_i(&num))), ("denominator", V::Bytes(raw_u(&den)))];
+    fields.rotate_left(rot % 2);
+    let got = from_v::<RBig>(V::Map(fields.clone()));
+    if ub.is_zero() {
+        if let Ok(v) = &got {
+            inproc(idx, format!("map-presenting medium decoded a zero denominator into RBig {}/{}", v.numerator(), v.denominator()));
+        }
+        if let Ok(v) = from_v::<Relaxed>(V::Map(fields.clone())) {
+            inproc(idx, format!("map-presenting medium decoded a zero denominator into Relaxed {}/{}", v.numerator(), v.denominator()));
+        }
+    } else {
+        let want = RBig::from_parts(ia.clone(), ub.clone());
+        match got {
+            Ok(v) if v.numerator() == want.numerator() && v.denominator() == want.denominator() => {}
+            Ok(v) => inproc(idx, format!("map-presenting medium decoded {}/{} into the RBig {}/{} (canonical: {}/{})", num, den, v.numerator(), v.denominator(), want.numerator(), want.denominator())),
+            Err(_) if c != 1 => {} // refusing unreduced parts is allowed
+            Err(e) => inproc(idx, format!("map-presenting medium refused a valid RBig {}/{}: {}", num, den, e)),
+        }
+        match from_v::<Relaxed>(V::Map(fields.clone())) {
+            Ok(v) if !v.denominator().is_zero() && v.numerator() * IBig::from(want.denominator().clone()) == want.numerator() * IBig::from(v.denominator().clone()) => {}
+            Ok(v) => inproc(idx, format!("map-presenting medium decoded {}/{} into the Relaxed {}/{}", num, den, v.numerator(), v.denominator())),
+            Err(e) => inproc(idx, format!("map-presenting medium refused a valid Relaxed {}/{}: {}", num, den, e)),
+        }
+    }
+    let mut miss = fields.clone();
+    miss.remove(rot % 2);
+    if let Ok(v) = from_v::<RBig>(V::Map(miss)) {
+        inproc(idx, format!("map-presenting medium accepted an RBig with a missing field: {}", v));
+    }
+}
+
 /// decoding arbitrary bytes/strings: Err, or a value whose representation is canonical
 fn f2_to_10(f: &F10) -> Repr<10> {
     f.repr().clone()
@@ -264,6 +355,7 @@ fn one(idx: u64, seed: u64) -> String {
             }
             decode_checks(idx, r, &serde_json::to_string(&q).unwrap(), &pq);
             decode_checks(idx, r, &serde_json::to_string(&ia).unwrap(), &pi);
+            map_medium_checks(idx, r, &ia, &ib, &ub);
             format!("serde {} bin={}|{}|{}|{}|{}|{}|{}|{}", j, hexs(&pu), hexs(&pi), hexs(&pq), hexs(&px), hexs(&pf), hexs(&pr), hexs(&pfu), hexs(&pfu2))
         }
         14 => {
